@@ -168,13 +168,40 @@ func (fg *FG) makeChan(st *State, x *ssa.MakeChan) {
 }
 
 // send: never on a nil or closed channel; with the contract flag "nonblocking" the buffer must have room.
+// chanValueFacts applies the declared sender-side contract of a channel element type.
+func (fg *FG) chanValueFacts(st *State, v Val, in ssa.Instruction, sending bool) {
+	if v.Ty == nil {
+		return
+	}
+	key := types.TypeString(v.Ty, func(p *types.Package) string { return p.Name() })
+	for _, cv := range fg.g.ct.ChanValues[key] {
+		env := &Env{fg: fg, vars: map[string]Val{cv.Var: v}, st: st, old: fg.entrySt}
+		if p := fg.g.pkgByName(cv.Pkg); p != nil {
+			env.pkg = p
+		}
+		if sending && cv.Ensure != nil {
+			t := env.tr(cv.Ensure.E)
+			fg.oblig("pre", fmt.Sprintf("send:%s@%s", sanitize(key), fg.instrLabel(in)), cv.Ensure.Tag, fg.guard(), t.T, cv.Ensure.Src, fg.posOf(instrPos(in)))
+		}
+		if !sending && cv.Assume != nil {
+			t := env.tr(cv.Assume.E)
+			fg.assume(fmt.Sprintf("(=> %s %s)", fg.guard(), t.T))
+			fg.g.noteAssumption("values received from channels of " + key + ": " + cv.Assume.Src)
+		}
+	}
+}
+
 func (fg *FG) send(st *State, x *ssa.Send) {
 	ch := fg.val(x.Chan)
-	fg.val(x.X)
+	fg.chanValueFacts(st, fg.val(x.X), x, true)
 	l, c, cl := fg.chanHeaps(st)
 	fg.safe("sendclosed", x, fmt.Sprintf("(and (not (= %s 0)) (not (select %s %s)))", ch.T, cl, ch.T))
 	if fg.g.nonblockingFn(fg.name) {
-		fg.safe("nonblocking", x, fmt.Sprintf("(< (select %s %s) (select %s %s))", l, ch.T, c, ch.T))
+		// rendezvous channels (capacity 0 by construction, e.g. a requester waiting for its answer) are excluded:
+		// the contract names the element types whose sends must never block
+		if fg.c == nil || fg.c.NonblockingTypes == nil || fg.c.NonblockingTypes[types.TypeString(x.X.Type(), func(p *types.Package) string { return p.Name() })] {
+			fg.safe("nonblocking", x, fmt.Sprintf("(< (select %s %s) (select %s %s))", l, ch.T, c, ch.T))
+		}
 	}
 	fg.frameCheck(st, &Loc{Kind: LCell, Heap: "CH_len", Ref: ch.T}, x)
 	fg.setHeap(st, "CH_len", fmt.Sprintf("(store %s %s (+ (select %s %s) 1))", l, ch.T, l, ch.T))
@@ -201,6 +228,7 @@ func (fg *FG) recv(st *State, x *ssa.UnOp) {
 	}
 	v := fg.bindFresh(x)
 	fg.assumeTyped(v, st)
+	fg.chanValueFacts(st, v, x, false)
 }
 
 func (fg *FG) selectInstr(st *State, x *ssa.Select) {
@@ -217,6 +245,11 @@ func (fg *FG) selectInstr(st *State, x *ssa.Select) {
 	for i := 2; i < t.Len(); i++ {
 		v := Val{T: fg.fresh("sel.recv", fg.sorts.sortOf(t.At(i).Type())), Ty: t.At(i).Type()}
 		fg.assumeTyped(v, st)
+		// the sender-side contract holds for the value of the chosen case
+		saved := fg.R[fg.curBlock]
+		fg.R[fg.curBlock] = fmt.Sprintf("(and %s (= %s %d))", saved, idx, i-2)
+		fg.chanValueFacts(st, v, x, false)
+		fg.R[fg.curBlock] = saved
 		res = append(res, v)
 	}
 	for _, s := range x.States {
